@@ -23,6 +23,7 @@ import (
 	"compiler/verifh/c15"
 	"compiler/verifh/c16"
 	"compiler/verifh/c17"
+	"compiler/verifh/c18"
 	"compiler/verifh/c19"
 	"compiler/verifh/c20"
 	"compiler/verifh/fe"
@@ -47,6 +48,7 @@ var checks = map[string]func(*vl.Ctx){
 	"C15": c15.Run,
 	"C16": c16.Run,
 	"C17": c17.Run,
+	"C18": c18.Run,
 	"C19": c19.Run,
 	"C20": c20.Run,
 }
